@@ -178,7 +178,7 @@ class Executor:
         except FileNotFoundError:
             raise vf.Infra("strace wrote no log (ptrace unavailable?):\n" + p.stdout[-2000:])
         calls = self.parse(lines, data)
-        killed = bool(calls) and calls[-1]["killed"]
+        killed = any(c["killed"] for c in calls)
         if not killed and "zzv: done" not in p.stdout and not any(r.get("k") == "startfail" for r in recs):
             raise vf.Infra("helper neither finished nor was killed:\n%s\n%s" % (p.stdout[-1500:], "\n".join(lines[-10:])))
         return recs, calls, killed, p.stdout
@@ -196,7 +196,7 @@ class Executor:
                     c["killed"] = True
                 continue
             m = re.match(r"^(\d+)\s+(\w+)\((.*)$", ln)
-            if not m:
+            if not m or "<detached ...>" in ln:
                 continue
             pid, name, rest = m.group(1), m.group(2), m.group(3)
             killed = rest.rstrip().endswith("= ?")
